@@ -166,6 +166,32 @@ func (c *Ctx) arith(op token.Token, a, b Value, rt types.Type, spec bool) (res s
 		}
 		return c.wrap(rt, s, cheap)
 	}
+	// + - * on two literals are folded (with exact wrap-around for the result type)
+	if x, ok := litInt(a.S); ok {
+		if y, ok := litInt(b.S); ok {
+			var r *big.Int
+			switch op {
+			case token.ADD:
+				r = new(big.Int).Add(x, y)
+			case token.SUB:
+				r = new(big.Int).Sub(x, y)
+			case token.MUL:
+				r = new(big.Int).Mul(x, y)
+			}
+			if r != nil {
+				if !spec && rt != nil {
+					if bits, signed := intInfo(rt); bits > 0 {
+						m := new(big.Int).Lsh(big.NewInt(1), uint(bits))
+						r.Mod(r, m)
+						if signed && r.Cmp(new(big.Int).Rsh(m, 1)) >= 0 {
+							r.Sub(r, m)
+						}
+					}
+				}
+				return sBig(r), precond
+			}
+		}
+	}
 	// bit operations on two non-negative literals are folded
 	if x, ok := litInt(a.S); ok && x.Sign() >= 0 {
 		if y, ok := litInt(b.S); ok && y.Sign() >= 0 {
